@@ -18,6 +18,7 @@ var intervals = []ivl{
 var bucketCounts = []int{1, 1, 2, 2, 3, 5, 8, 60}
 var countLimits = []int64{0, 1, 1, 2, 2, 3, 5, 10, 20}
 var sizeLimits = []int64{0, 1, 150, 400, 400, 1000, 1000, 3000}
+
 // ratio 0 is refused by the config parser (`required` means non-zero), so the smallest ratio is 0.01
 var pctChoices = []int{1, 1, 5, 10, 20, 25, 30, 33, 40, 50, 50, 60, 70, 75, 100}
 var lvlPool = []string{"error", "warn", "info", "debug", "trace", "fatal", "ошибка", `e"q`, "E R"}
@@ -348,6 +349,30 @@ func genSeqCase(seed int64) *Case {
 		cs.Steps = append(cs.Steps, st)
 	}
 	cs.NEvents = idx
+
+	// size budgets that are hit exactly: make some size limits the sum of the
+	// sizes of a few generated events (sizes repeat within a case), so that
+	// "accumulated == limit" happens for the size kind as it does for counts
+	var sizes []int64
+	for si := range cs.Steps {
+		for ei := range cs.Steps[si].Evs {
+			sizes = append(sizes, cs.Steps[si].Evs[ei].size())
+		}
+	}
+	adjust := func(limit *int64, kind string, d *Dist) {
+		if kind != "size" || d.enabled() || r.Intn(100) >= 40 {
+			return
+		}
+		var sum int64
+		for n := 1 + r.Intn(4); n > 0; n-- {
+			sum += sizes[r.Intn(len(sizes))]
+		}
+		*limit = sum
+	}
+	adjust(&c.DefaultLimit, c.Kind, &c.Dist)
+	for i := range c.Rules {
+		adjust(&c.Rules[i].Limit, c.Rules[i].Kind, &c.Rules[i].Dist)
+	}
 	return cs
 }
 
@@ -430,5 +455,50 @@ func genConcCase(seed int64) *Case {
 		cs.Steps = append(cs.Steps, st)
 	}
 	cs.NEvents = idx
+	return cs
+}
+
+// genMultiCase draws a history for a pipeline with two throttle actions in a
+// row (same throttle and time fields, otherwise independent settings, no
+// distributions so that each action alone is deterministic).
+func genMultiCase(seed int64) *Case {
+	if seed == 0 {
+		return directedMultiCase()
+	}
+	cs := genSeqCase(seed)
+	cs.Clause = "multi"
+	r := rand.New(rand.NewSource(seed ^ 0x5eed))
+	strip := func(c *Config) {
+		c.Dist = Dist{}
+		for i := range c.Rules {
+			c.Rules[i].Dist = Dist{}
+		}
+	}
+	strip(&cs.Cfg)
+	b := genConfig(r)
+	strip(&b)
+	b.ThrottleField, b.TimeField = cs.Cfg.ThrottleField, cs.Cfg.TimeField
+	cs.Cfg2 = &b
+	return cs
+}
+
+// directedMultiCase is the smallest history that separates "two independent
+// throttles" from "one shared budget": limits 10 then 3, eight events of one
+// key at one instant. Independent: 3 pass. Shared: 5 pass.
+func directedMultiCase() *Case {
+	a := Config{Interval: "1m", IntervalNs: 60e9, Buckets: 3, DefaultLimit: 10, Kind: "count", ThrottleField: "k", TimeField: "time"}
+	b := a
+	b.DefaultLimit = 3
+	cs := &Case{Seed: 0, Clause: "multi", Cfg: a, Cfg2: &b}
+	now := virtualBase + 12345
+	st := Step{Now: now}
+	for i := 0; i < 8; i++ {
+		e := Ev{Idx: i, Key: sp("x"), TSNano: now, TSOK: true, TClass: "now"}
+		e.TS = sp(time.Unix(0, now).UTC().Format(time.RFC3339Nano))
+		e.render(&cs.Cfg, nil)
+		st.Evs = append(st.Evs, e)
+	}
+	cs.Steps = []Step{st}
+	cs.NEvents = 8
 	return cs
 }
